@@ -11,6 +11,8 @@ import ScionTime.Model.MainCfg
 import ScionTime.Proofs.C01
 import ScionTime.Props.C01
 import ScionTime.Gen.Sync
+import ScionTime.Props.F64P_C18Float
+import ScionTime.Props.LeafC18
 
 namespace ScionTime.Props.C01Cfg
 open ScionTime.MainCfg ScionTime.Sync ScionTime.F64
@@ -185,6 +187,140 @@ theorem C01Cfg_nan_reaches_run_and_is_refused (s : SvcSync) (drift : Int64) (nRe
   rcases h with h | h
   · left; simp [toRunCfg, syncConfig, h, isZeroF, F64.beq]
   · right; simp [toRunCfg, syncConfig, h, isZeroF, F64.beq]
+
+/-! ### The whole chain from the configuration file to `Run`
+
+What reaches `sync.Run` from timeservice.go (`runServer`, `runClient`): `syncCfg` (five fields,
+above), the clock `lclk`, of which `Run` uses `Drift(cfg.SyncInterval)` and `Sleep(cfg.SyncInterval)`
+only, the discipline `adj` (C19), and the two lists of clocks (only their lengths matter for the
+bound). The clock's drift comes from the sixth configuration value, `clock_drift`. -/
+
+/-- both call sites: `sync.Run(log, syncConfig(cfg), clocks.NewSystemClock(log, clockDrift(cfg)),
+    adj, refClocks, peerClocks)`, each argument assigned exactly once -/
+theorem C01Cfg_pin_run_sites : Gen.Sync.main_syncRun_sites =
+    ["runServer: sync.Run(log, syncCfg, lclk, adj, refClocks, peerClocks) | log := slog.Default() | syncCfg := syncConfig(cfg) | lclk := clocks.NewSystemClock(log, clockDrift(cfg)) | adj := &adjustments.PIController{ KP: adjustments.PIControllerDefaultPRatio, KI: adjustments.PIControllerDefaultIRatio, StepThreshold: adjustments.PIControllerDefaultStepThreshold, } | refClocks, peerClocks := createClocks(cfg, localAddr, log) | refClocks, peerClocks := createClocks(cfg, localAddr, log)",
+     "runClient: sync.Run(log, syncCfg, lclk, adj, refClocks, peerClocks) | log := slog.Default() | syncCfg := syncConfig(cfg) | lclk := clocks.NewSystemClock(log, clockDrift(cfg)) | adj := &adjustments.PIController{ KP: adjustments.PIControllerDefaultPRatio, KI: adjustments.PIControllerDefaultIRatio, StepThreshold: adjustments.PIControllerDefaultStepThreshold, } | refClocks, peerClocks := createClocks(cfg, localAddr, log) | refClocks, peerClocks := createClocks(cfg, localAddr, log)"] := by
+  rfl
+
+/-- the clock: `drift: drift.Seconds()`; and `Run` touches it through `Drift(cfg.SyncInterval)` and
+    `Sleep(cfg.SyncInterval)` only (never passes it on) -/
+theorem C01Cfg_pin_run_clock :
+    Gen.Sync.clocks_NewSystemClock_body = ["return &SystemClock{ log: log, drift: drift.Seconds(), }"] ∧
+    Gen.Sync.sync_Run_clkCalls = ["clk.Drift(cfg.SyncInterval)", "clk.Sleep(cfg.SyncInterval)"] :=
+  ⟨rfl, rfl⟩
+
+/-- `runDrift` IS the regenerated `(*SystemClock).Drift` (leaf translator) on the clock that
+    `NewSystemClock` builds, for every configured drift and every interval -/
+theorem C01Cfg_runDrift_leaf (d iv : Int64) (e : UInt64) :
+    (Gen.Leaf.clocks_SystemClock_Drift { drift := F64.durationSeconds d.toInt, epoch := e } iv).toInt =
+      runDrift d.toInt iv.toInt :=
+  LeafTieC18.C18_leaf_Drift _ _
+
+theorem runDrift_eq (d iv : Int) : runDrift d iv = F64P_UnixutilFloat.driftOfDuration d iv := rfl
+
+/-- an absent `clock_drift` (0 = `clocks.UnknownDrift`): the allowance is `MaxInt64`, whatever the
+    interval -/
+theorem C01Cfg_runDrift_unknown (iv : Int) : runDrift 0 iv = 9223372036854775807 := by
+  have h0 : FreqDrift.clockDrift 0 = .zero false := by decide +kernel
+  unfold runDrift FreqDrift.drift
+  rw [h0]; rfl
+
+/-- a configured drift of 1 ns/s … 0.4 s/s whose exact allowance over the interval,
+    `d·iv/10⁹` ns, is at least 2 ns: `Drift(interval)` is positive — `Run`'s caps are then positive
+    and finite — and within `1 + 2⁻⁵⁰·exact` of the exact allowance (it never inflates the cap). -/
+theorem C01Cfg_runDrift_positive (d iv : Int) (hd1 : 1 ≤ d) (hd2 : d ≤ 400000000) (hiv : 0 < iv)
+    (hiv2 : iv ≤ 9223372036854775807) (h2 : 2000000000 ≤ d * iv) :
+    0 < runDrift d iv ∧
+    ((runDrift d iv : Int) : Rat) ≤ (d : Rat) * (iv : Rat) / 1000000000 * (1 + 1 / 100000000000000) + 1 := by
+  obtain ⟨hf, _, hv⟩ := durationSeconds_val (d := d) (by omega)
+  have herr := secondsVal_err d
+  have heta : pow2 (-1075) ≤ 1 / 1606938044258990275541962092341162602522202993782792835301376 := by
+    have e : pow2 (-200) = 1 / 1606938044258990275541962092341162602522202993782792835301376 := by rw [pow2_neg]; congr 1
+    rw [← e]; exact pow2_mono (by decide)
+  have hη0 := Rat.le_of_lt (pow2_pos (-1075))
+  have hD1 : (1 : Rat) ≤ (d : Rat) := by simpa using Rat.intCast_le_intCast.mpr hd1
+  have hD2 : (d : Rat) ≤ 400000000 := by simpa using Rat.intCast_le_intCast.mpr hd2
+  have hI0 : (0 : Rat) < (iv : Rat) := by simpa using Rat.intCast_lt_intCast.mpr hiv
+  have hP : (2000000000 : Rat) ≤ (d : Rat) * (iv : Rat) := by
+    have := Rat.intCast_le_intCast.mpr h2
+    simpa [Rat.intCast_mul] using this
+  have hp900 : pow2 (-900) ≤ 1 / 2000000000 := by decide +kernel
+  have hq0 : 0 ≤ (d : Rat) / 1000000000 := by grind
+  rw [Rat.abs_of_nonneg hq0, abs_le_iff] at herr
+  generalize secondsVal d = s at hv herr
+  obtain ⟨e2, e1⟩ := herr
+  have s0 : 0 < s := by grind
+  have habs : s.abs = s := Rat.abs_of_nonneg (Rat.le_of_lt s0)
+  have hb := F64P_C18Float.C18_drift_bound (durationSeconds d) iv hf
+    (by rw [hv, habs]; grind) (by rw [hv, habs]; grind) (by omega)
+  rw [hv] at hb
+  have hT0 : 0 ≤ s * (iv : Rat) := Rat.mul_nonneg (Rat.le_of_lt s0) (Rat.le_of_lt hI0)
+  rw [Rat.abs_of_nonneg hT0, abs_le_iff, F64P_C18Float.pow2_50_lit] at hb
+  have m1 := Rat.mul_le_mul_of_nonneg_right e1 (Rat.le_of_lt hI0)
+  have m2 := Rat.mul_le_mul_of_nonneg_right e2 (Rat.le_of_lt hI0)
+  have m3 := Rat.mul_le_mul_of_nonneg_right heta (Rat.le_of_lt hI0)
+  have hI2 : (iv : Rat) ≤ 9223372036854775807 := by simpa using Rat.intCast_le_intCast.mpr hiv2
+  have hdr : runDrift d iv = F64P_UnixutilFloat.drift (durationSeconds d) iv := rfl
+  rw [hdr]
+  generalize F64P_UnixutilFloat.drift (durationSeconds d) iv = r at hb ⊢
+  generalize pow2 (-1075) = η at *
+  obtain ⟨hb1, hb2⟩ := hb
+  constructor
+  · have : (0 : Rat) < (r : Rat) := by grind
+    exact_mod_cast this
+  · grind
+
+/-- … and the smallest configurable drift, 1 ns/s, over the default interval: 1 ns -/
+example : runDrift 1 1000000000 = 1 ∧ runDrift 10000 1000000000 = 10000 ∧ runDrift 15 1000000000 = 14 ∧
+    runDrift 1 500000000 = 0 := by decide +kernel
+
+/-- `startCfg`: the file is refused iff `clock_drift < 0` (NaN passes the guard and converts to
+    `MinInt64`); otherwise `Run` starts on `syncConfig`'s five values and `Drift(SyncInterval)` of
+    the configured clock. -/
+theorem C01Cfg_start_cases (s : SvcSync) (v : F64) (nRef nPeer : Nat) :
+    (F64.lt v (.zero false) = true →
+      startCfg s v nRef nPeer = .fatal "invalid clock drift value specified in config") ∧
+    (F64.lt v (.zero false) = false →
+      startCfg s v nRef nPeer = .ok (toRunCfg (syncConfig s)
+        (Int64.ofInt (runDrift (toDuration v) (syncConfig s).syncInterval)) nRef nPeer)) := by
+  constructor <;> intro h <;> simp [startCfg, clockDrift, h]
+
+/-- **Start-up from the configuration file with the five sync keys absent**: for every value of
+    `clock_drift` that is absent / zero / below 1 ns/s (→ unknown drift) or between 2 ns/s and
+    0.4 s/s, and any numbers of reference clocks and peers, the binary hands `Run` a configuration
+    `Run` accepts. -/
+theorem C01Cfg_start_defaults (v : F64) (hv : F64.lt v (.zero false) = false) (nRef nPeer : Nat)
+    (hd : toDuration v = 0 ∨ (2 ≤ toDuration v ∧ toDuration v ≤ 400000000)) :
+    ∃ c, startCfg {} v nRef nPeer = .ok c ∧ admissible c = true := by
+  refine ⟨_, (C01Cfg_start_cases {} v nRef nPeer).2 hv, ?_⟩
+  have hi : (syncConfig {}).syncInterval = 1000000000 := by decide +kernel
+  rw [hi]
+  apply C01Cfg_defaults_admissible
+  rcases hd with h0 | ⟨h2, h4⟩
+  · rw [h0, C01Cfg_runDrift_unknown]; decide
+  · have hp := (C01Cfg_runDrift_positive (toDuration v) 1000000000 (by omega) h4 (by decide) (by decide) (by omega)).1
+    have hr : runDrift (toDuration v) 1000000000 ≤ 9223372036854775807 := by
+      unfold runDrift FreqDrift.drift FreqDrift.duration toDuration
+      split
+      · decide
+      · exact (ScionTime.GoLemmas.toInt64_range _).2
+    rw [ScionTime.GoLemmas.toInt_ofInt_of_fits _ (by omega) hr]
+    exact hp
+
+/-- `r` is `.ok c` with `p c` -/
+def _root_.ScionTime.MainCfg.Res.okAnd {α : Type} (r : Res α) (p : α → Bool) : Bool :=
+  match r with
+  | .ok c => p c
+  | _ => false
+
+/-- instances: `clock_drift = 0.00001` (10 µs/s, a typical value), absent, and 1e-10 (< 1 ns/s:
+    treated as unknown) start; a negative one is refused by `clockDrift` before `Run` is reached -/
+example :
+    (startCfg {} (ofConst 1 100000) 2 1).okAnd (fun c => c.drift == 10000 && admissible c) = true ∧
+    (startCfg {} (.zero false) 2 1).okAnd (fun c => c.drift == Int64.maxValue && admissible c) = true ∧
+    (startCfg {} (ofConst 1 10000000000) 2 1).okAnd (fun c => c.drift == Int64.maxValue) = true ∧
+    (startCfg {} (ofConst (-1) 100000) 2 1).okAnd (fun _ => true) = false := by
+  decide +kernel
 
 /-! ### clockDrift, dscp -/
 
